@@ -63,6 +63,20 @@ def shape_hypothesis(chk, docs):
     chk.cov['theorem_hypotheses_evaluated_in_coq'] = len(docs)
     chk.cov['theorem_hypotheses_satisfied'] = sum(got)
 
+def judge_reuse(res, d, b):
+    """the in-memory diff applied twice (fresh base each time) must give the target both times and be unchanged afterwards"""
+    ru = res.get('reuse')
+    if not ru: return None, None
+    if 'err' in ru:
+        return 'in-memory-diff-reuse-raises:' + ru['err'].get('err', '?'), {'msg': ru['err'].get('msg')}
+    if not pyspec.strict_eq(ru['first'], b):
+        return 'in-memory-diff-first-application-mismatch', {'diff': d}
+    if not pyspec.strict_eq(ru['second'], b):
+        return 'diff-not-reusable:second-application-differs', {'diff': d, 'diff_after_use': ru['diff_after']}
+    if ru['diff_after'] != d:
+        return 'patch-modifies-the-diff', {'diff': d, 'diff_after_use': ru['diff_after']}
+    return None, None
+
 def judge(case, res):
     a, b = case['a'], case['b']
     if 'err' in res:
@@ -90,7 +104,7 @@ def judge(case, res):
             return 'file-interface-raises:' + f['err'], {'msg': f.get('msg')}
         if not pyspec.strict_eq(f['ok'], b):
             return 'file-interface-mismatch', {'where': first_difference(f['ok'], b)}
-    return None, None
+    return judge_reuse(res, d, b)
 
 def first_difference(x, y, path=''):
     if type(x) is not type(y): return '%s: %r vs %r' % (path or '/', type(x).__name__, type(y).__name__)
